@@ -164,12 +164,14 @@ def vector_intersect(l1, l2, intersection_tolerance):
     """
     x11, y11, x12, y12 = l1
     x21, y21, x22, y22 = l2
-    if x12 - x11 == 0:
+    # a segment that is vertical but for round-off (dx below 1e-12 of dy, e.g. a rotated or converted coordinate that differs in
+    # the last bit) is treated as vertical: its slope-intercept form has a slope of ~1e15 and loses every digit of the intersection
+    if abs(x12 - x11) <= 1e-12 * abs(y12 - y11):
         a1 = float("inf")
     else:
         a1 = (y12 - y11) / (x12 - x11)
         c1 = y11 - x11 * a1
-    if x22 - x21 == 0:
+    if abs(x22 - x21) <= 1e-12 * abs(y22 - y21):
         a2 = float("inf")
     else:
         a2 = (y22 - y21) / (x22 - x21)
